@@ -27,7 +27,7 @@ func Sleep(d time.Duration) {
 		time.Sleep(d)
 		return
 	}
-	dl := vsched.NowNS() + int64(d)
+	dl := vsched.After(int64(d))
 	if d <= 0 {
 		vsched.Point("sleep0")
 		return
@@ -63,7 +63,7 @@ func NewTimer(d time.Duration) *Timer {
 	}
 	t := &Timer{c: make(chan time.Time, 1)}
 	t.C = t.c
-	t.a = vsched.NewAlarm(vsched.NowNS()+int64(d), t.fire)
+	t.a = vsched.NewAlarm(vsched.After(int64(d)), t.fire)
 	return t
 }
 
@@ -72,7 +72,7 @@ func AfterFunc(d time.Duration, f func()) *Timer {
 		return &Timer{real: time.AfterFunc(d, f)}
 	}
 	t := &Timer{f: f}
-	t.a = vsched.NewAlarm(vsched.NowNS()+int64(d), t.fire)
+	t.a = vsched.NewAlarm(vsched.After(int64(d)), t.fire)
 	return t
 }
 
@@ -105,7 +105,7 @@ func (t *Timer) Reset(d time.Duration) bool {
 		default:
 		}
 	}
-	t.a.Rearm(vsched.NowNS() + int64(d))
+	t.a.Rearm(vsched.After(int64(d)))
 	return was
 }
 
@@ -127,7 +127,7 @@ func NewTicker(d time.Duration) *Ticker {
 	}
 	t := &Ticker{c: make(chan time.Time, 1), d: d}
 	t.C = t.c
-	t.a = vsched.NewAlarm(vsched.NowNS()+int64(d), nil)
+	t.a = vsched.NewAlarm(vsched.After(int64(d)), nil)
 	t.a.Fire = func() {
 		select {
 		case t.c <- vsched.S.Now():
@@ -152,7 +152,7 @@ func (t *Ticker) Reset(d time.Duration) {
 		return
 	}
 	t.d = d
-	t.a.Rearm(vsched.NowNS() + int64(d))
+	t.a.Rearm(vsched.After(int64(d)))
 }
 
 func Tick(d time.Duration) <-chan time.Time { return NewTicker(d).C }
